@@ -48,8 +48,8 @@ def run_one(ctx, c, known):
 def run(ctx):
     known = next((e for e in core.load_known("C01") if e["id"] == KNOWN_W and e["status"] == "known"), None)
     n = 60 if ctx.quick else 600
-    for _ in range(n):
-        c = gen(ctx, ctx.rng)
+    for k in range(n):
+        c = fibre.splice_at_last_reference_case(ctx.rng, False) if k < 2 else gen(ctx, ctx.rng)
         run_one(ctx, c, known)
 
 
